@@ -238,6 +238,13 @@ example : (runEager .repaired cleanupBody [.cancel, .run, .run]).map summary
     on f1 — legitimately — after having seen the CancelledError -/
 example : (runEager .repaired [.try_ [.await 0] .ca false [.await 1] []] [.cancel, .run, .run]).map summary
     = some (none, 2, .cancelled, false) := by decide
+/-- repeated cancels (a cancel() inside an `eager_ctx()` block that the body suppresses, the body
+    suspends again on f1, then the block exit = a second cancel()): the second request is delivered too —
+    3 resumes, f1 cancelled, coroutine finished.  (`cancelling()` calls `target.cancel()` on *every*
+    exit; in the model a block exit is a `cancel` event.) -/
+example : (runEager .repaired [.try_ [.await 0] .ca false [] [], .await 1]
+      [.cancel, .run, .run, .cancel, .run]).map (fun k => (summary k, (k.futs 1).st))
+    = some ((some (.raise (.cancelled 0)), 3, .cancelled, true), .cancelled) := by decide
 /-- the hypotheses of `cancel_reaches_body` on a concrete state (second disjunct, plain future) -/
 example : HeldOk (.fut 0) F0 := fun _ _ => rfl
 
